@@ -254,10 +254,10 @@ def run(c) -> CaseResult:
     if c["end"]:
         rb = run_once(mods[len(chain)], inputs)
         tol_end = None if c["end"] == "track_scales" else 1e-5
-        if c["end"] == "track_scales" and prog is not None and dsl.grad_fanout(prog) >= 3:
-            # >= 3 gradient contributions to one tensor: tracking changes their accumulation order (last-ulp differences,
-            # see C18's known finding); with quantisation in the chain an ulp can flip a rounding decision, so only compare without
-            tol_end = "skip" if qname else 1e-5
+        if c["end"] == "track_scales":
+            # tracking can change gradients in the last ulps (accumulation order, contiguous copies: C18's known finding); with a
+            # lossy quantiser in the chain one ulp can flip a rounding decision, so the comparison is made without one only
+            tol_end = "skip" if (qname and qname != "lossless") else 1e-5
         d = None if tol_end == "skip" else same_result(rb, results[0], tol=tol_end)
         if d:
             res.fail(f"C17.end-transform-changes-result:{c['end']}", f"{d} differs with {c['end']} appended to {'>'.join(chain)}\n{src}")
@@ -266,9 +266,51 @@ def run(c) -> CaseResult:
     return res
 
 
+# ------------------------------------------------------------------ many instances of ONE model class, each nested-transformed
+
+
+@st.composite
+def repeat_cases(draw, tier):
+    return dict(prog=draw(dsl.unit_programs(max_ops=5)), seed=draw(st.integers(0, 10**6)), n=10,
+                chain=draw(st.sampled_from([["unit_scale", "e5m2-nearest"], ["e5m2-nearest", "unit_scale"], ["unit_scale", "lossless"]])))
+
+
+def run_repeat(c) -> CaseResult:
+    res = CaseResult()
+    prog = c["prog"]
+    cls = dsl.build_class(prog)
+    qname = next(t for t in c["chain"] if t in QUANTS)
+    for k in range(c["n"]):
+        m = dsl.build_module(prog, c["seed"] + k, cls=cls)
+        inputs = dsl.make_inputs(prog, c["seed"] + k)
+        try:
+            final = m
+            for t in c["chain"]:
+                final = apply(t, final)
+            r = run_once(final, inputs)
+        except Exception as e:  # noqa: BLE001
+            res.fail(exc_bucket("C17.repeat.raises", e).replace("outside-library", "via-dynamo")[:300], f"instance #{k + 1}: {type(e).__name__}: {str(e)[:200]}")
+            return res
+        mode = dsl.quantised(dsl.Unit, *QUANT_FORMATS[qname])
+        P = dict(final.named_parameters())
+        fr = prep(inputs)
+        yr = dsl.evaluate(prog, dsl.named_tensors(final), fr, mode)
+        gr = torch.autograd.grad(yr, [fr[k_] for k_ in FLOAT_INPUTS if k_ in fr] + list(P.values()), allow_unused=True)
+        ref = (yr.detach(), dict(zip(["input:" + k_ for k_ in FLOAT_INPUTS if k_ in fr] + list(P.keys()), gr)))
+        d = same_result(r, ref)
+        if d:
+            res.fail("C17.repeat.semantics", f"instance #{k + 1} of the same model class after {'>'.join(c['chain'])}: {d} differs from 'each transform applied exactly once' "
+                     f"(earlier instances agreed)\n{cls._verif_source}")
+            return res
+    res.nontrivial = True
+    res.labels.append("same-class-x10")
+    return res
+
+
 CHECK = Check(
     id="C17",
-    parts=[Part("chains", run, strategy=cases, budget={"quick": 100, "thorough": 2000})],
+    parts=[Part("chains", run, strategy=cases, budget={"quick": 100, "thorough": 2000}),
+           Part("repeat", run_repeat, strategy=repeat_cases, budget={"quick": 6, "thorough": 60})],
     rule=("Hypothesis histories: a module (DSL program over torch ops, or a block built from unit-scaled layers) x a chain using unit_scale at most "
           "once and at most one format simulation (simulate_fp8, lossless E8M23, E5M2-nearest, stochastic E4M3 with srbits=3; random source pinned) "
           "in either order (each intermediate module optionally called before it is transformed again), optionally ended by track_scales (or compile, thorough only, unit_scale-only chains), followed by 1-3 "
